@@ -24,11 +24,18 @@ NVariants == 7
 \* list lengths: 0..MaxList for the ordinary variants; the long variants sit at the boundaries of narrow index arithmetic
 \* (127 / 128 signed byte, 255 the largest one-byte count, 256 where the count field is wider)
 IsListy(f) == f.k \in {"ulist", "optulist", "list", "items"}
-NLong == 4
+NLong == 5      \* four long lists and one list whose records continue one another
 Count(f, var) == IF var <= NVariants THEN (var - 1) % (MaxList + 1)
-                 ELSE LET wide == f.k = "items" \/ f.cw > 1 IN <<127, 128, 255, IF wide THEN 256 ELSE 254>>[var - NVariants]
+                 ELSE LET wide == f.k = "items" \/ f.cw > 1 IN <<127, 128, 255, IF wide THEN 256 ELSE 254, 3>>[var - NVariants]
 RECURSIVE ValueOf(_, _, _)
+RECURSIVE Variant(_, _)
 RECURSIVE Fix(_, _)
+\* the progression variant: every number of record i is 4 * i, so that for (offset, length) pairs the second record starts
+\* exactly where the first ends - records that look mergeable are still separate records
+IsProg(var) == var = NVariants + NLong
+ProgItem(item, i) == [n \in {item[j].n : j \in 1..Len(item)} |->
+                        LET f == item[CHOOSE j \in 1..Len(item) : item[j].n = n] IN
+                        IF f.k = "u" THEN Mat([j \in 1..f.w |-> IF j = f.w THEN (4 * i) % 256 ELSE IF j = f.w - 1 THEN ((4 * i) \div 256) % 256 ELSE 0]) ELSE Variant(f, 2)]
 \* value of layout L where the field at (flat) position pick gets variant var, all others variant base
 Variant(f, var) == CASE f.k = "u" -> UVar(f.w)[var] [] f.k = "raw" -> UVar(f.w)[var] [] f.k = "bcd" -> BcdVar[var]
                      [] f.k = "lstr" -> (IF "min" \in DOMAIN f /\ Len(StrVar[var]) < f.min THEN StrVar[2] ELSE StrVar[var]) [] f.k = "rest" -> RestVar[var]
@@ -36,7 +43,7 @@ Variant(f, var) == CASE f.k = "u" -> UVar(f.w)[var] [] f.k = "raw" -> UVar(f.w)[
                      [] f.k = "items" -> LET c == Count(f, var) IN
                                          Mat([i \in 1..(IF c < f.min THEN f.min ELSE c) |-> ValueOf(f.item, 0, ((var + i) % NVariants) + 1)])
                      [] f.k \in {"ulist", "optulist"} -> Mat([i \in 1..Count(f, var) |-> UVar(f.w)[((var + i) % NVariants) + 1]])
-                     [] f.k = "list" -> Mat([i \in 1..Count(f, var) |-> ValueOf(f.item, 0, ((var + i) % NVariants) + 1)])
+                     [] f.k = "list" -> Mat([i \in 1..Count(f, var) |-> IF IsProg(var) THEN ProgItem(f.item, i) ELSE ValueOf(f.item, 0, ((var + i) % NVariants) + 1)])
 ValueOf(L, pick, var) == TLCEval(
     [n \in {L[i].n : i \in 1..Len(L)} |->
         LET i == CHOOSE j \in 1..Len(L) : L[j].n = n IN Variant(L[i], IF pick = 0 \/ pick = i THEN var ELSE 1)])
